@@ -319,6 +319,8 @@ func Compose(u *Universe, rng *rand.Rand, colsPerTable int, firstID int) []*Mode
 				tb.Fields = append(tb.Fields, fieldOf(u.Specs[order[i]], n))
 				i++
 			}
+			// the same jsonb column (name and type) in every table: each needs its own validator CHECK
+			tb.Fields = append(tb.Fields, plain("Shared", ref("Flags")))
 			// an unexported field never is a column
 			tb.Fields = append(tb.Fields, Field{Name: "hidden", Exported: false, TE: basic("string"), Guard: noGuard})
 			m.Tables = append(m.Tables, tb)
@@ -429,6 +431,9 @@ func ComposeCrud(u *Universe, rng *rand.Rand, firstID int) []*Model {
 			t0.Comments = append(t0.Comments, "gomacro:SQL _SELECT KEY(Num)")
 		case 1:
 			t0.Comments = append(t0.Comments, "gomacro:SQL _SELECT KEY(Tag, Num)")
+		}
+		if rng.Intn(2) == 0 {
+			t0.Comments = append(t0.Comments, "gomacro:QUERY SetNum UPDATE "+t0.Goname+" SET Num = $v$ WHERE Tag = $w$")
 		}
 		t1 := Table{Goname: names[rng.Intn(len(names))] + "1"}
 		t1.Fields = append(t1.Fields, plain([]string{"Id", "ID"}[rng.Intn(2)], basic("int64")))
